@@ -79,6 +79,9 @@ def scalar_ok(t, v, built=None):
         mmn, mmx = occurs(mt)
         if len(v) < mmn:
             return False
+        # (an element type with the default max_occurs is made unbounded by Array; an explicit bound is kept)
+        if mmx is not None and mmx > 1 and len(v) > mmx:
+            return False
         for x in v:
             if x is None:
                 if not nillable(mt):
